@@ -65,8 +65,27 @@ type seriesField struct {
 	field string
 }
 
+// tempBase: shard directories go to a memory file system when there is one
+// (the engine fsyncs on every write; crash states are produced by copying
+// directories, never by relying on what the disk kept), else to $TMPDIR.
+func tempBase() string {
+	if d := os.Getenv("VERIF_SHARD_TMP"); d != "" {
+		return d
+	}
+	if os.Getenv("TMPDIR") == "" {
+		if st, err := os.Stat("/dev/shm"); err == nil && st.IsDir() {
+			if f, err := os.CreateTemp("/dev/shm", "verif-probe-"); err == nil {
+				f.Close()
+				os.Remove(f.Name())
+				return "/dev/shm"
+			}
+		}
+	}
+	return ""
+}
+
 func New() (*Env, error) {
-	dir, err := os.MkdirTemp("", "verif-shard-")
+	dir, err := os.MkdirTemp(tempBase(), "verif-shard-")
 	if err != nil {
 		return nil, err
 	}
@@ -194,6 +213,25 @@ type Pt struct {
 	TS     int64
 }
 
+func ValidName(s string) bool {
+	if s == "" {
+		return false
+	}
+	for i := 0; i < len(s); i++ {
+		c := s[i]
+		if !(c >= 'a' && c <= 'z' || c >= 'A' && c <= 'Z' || c >= '0' && c <= '9' || c == '_') {
+			return false
+		}
+	}
+	return true
+}
+
+// TSLimit: generated timestamps lie strictly inside (-TSLimit, TSLimit).
+const TSLimit = int64(1) << 60
+
+// ParsePt parses and validates a point token exactly as the Lean driver does
+// (Drv/C40.lean parsePoint): names [A-Za-z0-9_]+, tag keys and field names
+// strictly ascending, canonical value tokens, |ts| < 2^60.
 func ParsePt(tok string) (Pt, error) {
 	parts := strings.Split(tok, "|")
 	if len(parts) != 4 {
@@ -201,55 +239,77 @@ func ParsePt(tok string) (Pt, error) {
 	}
 	var p Pt
 	p.Meas = parts[0]
+	if !ValidName(p.Meas) {
+		return Pt{}, fmt.Errorf("bad name")
+	}
 	if parts[1] != "-" {
 		for _, kv := range strings.Split(parts[1], ";") {
-			i := strings.IndexByte(kv, '=')
-			if i < 0 {
+			x := strings.Split(kv, "=")
+			if len(x) != 2 || !ValidName(x[0]) || !ValidName(x[1]) {
 				return Pt{}, fmt.Errorf("bad tag %q", kv)
 			}
-			p.Tags = append(p.Tags, [2]string{kv[:i], kv[i+1:]})
+			if n := len(p.Tags); n > 0 && !(p.Tags[n-1][0] < x[0]) {
+				return Pt{}, fmt.Errorf("tags not ascending")
+			}
+			p.Tags = append(p.Tags, [2]string{x[0], x[1]})
 		}
 	}
 	for _, f := range strings.Split(parts[2], ";") {
-		x := strings.SplitN(f, ":", 3)
-		if len(x) != 3 || len(x[1]) != 1 {
+		x := strings.Split(f, ":")
+		if len(x) != 3 || len(x[1]) != 1 || !ValidName(x[0]) {
 			return Pt{}, fmt.Errorf("bad field %q", f)
 		}
-		p.Fields = append(p.Fields, Field{x[0], x[1][0], x[2]})
+		fl := Field{x[0], x[1][0], x[2]}
+		if _, err := fieldValue(fl); err != nil {
+			return Pt{}, err
+		}
+		if n := len(p.Fields); n > 0 && !(p.Fields[n-1].Name < fl.Name) {
+			return Pt{}, fmt.Errorf("fields not ascending")
+		}
+		p.Fields = append(p.Fields, fl)
 	}
 	ts, err := strconv.ParseInt(parts[3], 10, 64)
-	if err != nil {
-		return Pt{}, err
+	if err != nil || strconv.FormatInt(ts, 10) != parts[3] || ts <= -TSLimit || ts >= TSLimit {
+		return Pt{}, fmt.Errorf("bad ts")
 	}
 	p.TS = ts
 	return p, nil
 }
 
 func strVal(v string) (string, error) {
-	i := strings.IndexByte(v, 'x')
-	if i < 0 {
+	x := strings.Split(v, "x")
+	if len(x) != 2 {
 		return "", fmt.Errorf("bad string value %q", v)
 	}
-	c, err1 := strconv.Atoi(v[:i])
-	n, err2 := strconv.Atoi(v[i+1:])
-	if err1 != nil || err2 != nil || c < 0 || c > 25 || n < 0 {
+	c, err1 := strconv.ParseUint(x[0], 10, 32)
+	n, err2 := strconv.ParseUint(x[1], 10, 32)
+	if err1 != nil || err2 != nil || strconv.FormatUint(c, 10) != x[0] || strconv.FormatUint(n, 10) != x[1] ||
+		c > 25 || n > 4000000 || (n == 0 && c != 0) {
 		return "", fmt.Errorf("bad string value %q", v)
 	}
-	return strings.Repeat(string(rune('a'+c)), n), nil
+	return strings.Repeat(string(rune('a'+c)), int(n)), nil
 }
 
 func fieldValue(f Field) (interface{}, error) {
 	switch f.T {
 	case 'f':
 		b, err := strconv.ParseUint(f.Val, 16, 64)
-		if err != nil || len(f.Val) != 16 {
+		if err != nil || len(f.Val) != 16 || fmt.Sprintf("%016x", b) != f.Val || (b>>52)&0x7ff == 0x7ff {
 			return nil, fmt.Errorf("bad float %q", f.Val)
 		}
 		return math.Float64frombits(b), nil
 	case 'i':
-		return strconv.ParseInt(f.Val, 10, 64)
+		v, err := strconv.ParseInt(f.Val, 10, 64)
+		if err != nil || strconv.FormatInt(v, 10) != f.Val {
+			return nil, fmt.Errorf("bad int %q", f.Val)
+		}
+		return v, nil
 	case 'u':
-		return strconv.ParseUint(f.Val, 10, 64)
+		v, err := strconv.ParseUint(f.Val, 10, 64)
+		if err != nil || strconv.FormatUint(v, 10) != f.Val {
+			return nil, fmt.Errorf("bad uint %q", f.Val)
+		}
+		return v, nil
 	case 'b':
 		if f.Val == "1" {
 			return true, nil
@@ -327,10 +387,18 @@ func errEnum(err error) string {
 	return "other"
 }
 
-// Write runs Shard.WritePoints on the batch and renders
+// Write runs Shard.WritePoints on the batch, then reads everything back:
 //
-//	ok | partial <dropped> <kind of first reason> | err:<enum>
+//	(ok | partial <dropped> <kind of first reason> | err:<enum>) <entries as in Read>
 func (e *Env) Write(toks []string) string {
+	res := e.write(toks)
+	if res == "bad-op" || res == "bad-point" {
+		return "bad-op"
+	}
+	return res + " " + e.Read()
+}
+
+func (e *Env) write(toks []string) string {
 	var pts []models.Point
 	for _, t := range toks {
 		p, err := ParsePt(t)
@@ -657,7 +725,7 @@ func copyTree(src, dst string) error {
 // do to the unsynced tail), and a new Shard is opened on the copy.  The old
 // instance is then closed and its directory removed.
 func (e *Env) Crash(edit func(shardDir string) error) error {
-	ndir, err := os.MkdirTemp("", "verif-shard-")
+	ndir, err := os.MkdirTemp(tempBase(), "verif-shard-")
 	if err != nil {
 		return err
 	}
